@@ -57,3 +57,44 @@ PROPS["C04"] = dict(
     assumptions=["input blocks of one transaction have distinct lower-cased names (see DESIGN 5.4)"],
     check_names={106: "a UTxO is bound to two input blocks"},
 )
+
+TIR_TB = TB_COMMON + [
+    "the IR is modelled as one inductive (coq/Tir.v) with hash-map / hash-set payloads as key-sorted lists; the harness prints implementation IRs sorted the same way, and all-constant asset lists are compared up to order (hash-map iteration order)",
+    "reduce is modelled with fuel 200 (the code re-reduces its own output once per built-in / coercion / query node); exhaustion is a distinct error never observed in the runs",
+    "the compiler's min_utxo is the constant 197 * coins_per_utxo_byte in these runs (fresh compiler, no previous body); script-address construction is modelled as header byte + 28-byte hash",
+]
+
+PROPS["C06"] = dict(
+    level="proof",
+    runner="C06",
+    model_files=["Base.v", "Assets.v", "Select.v", "Tir.v", "Reduce.v", "Walk.v"],
+    proof_files=["Assets_proofs.v", "Tir_proofs.v", "Reduce_proofs.v"],
+    check_files=["C06_check.v"],
+    theorems=["C06_constant_closed", "C06_params_complete", "C06_params_sound", "C06_apply_args_closes",
+              "C06_apply_fees_closes", "C06_missing_arg_refused", "C06_all_args_accepted"],
+    partial=["closure after apply_inputs and preservation of closedness by reduce are checked per case (clause 103), not yet theorems",
+             "queries_complete (top-level queries reported) is checked per case (clause 102)"],
+    trusted_base=TIR_TB,
+    assumptions=["Param::Set payloads are closed (sets_closed): true of lowered templates and of what apply_* inserts"],
+    check_names={101: "unresolved value parameters found by the walk are reported by find_params",
+                 102: "unresolved inputs found by the walk are reported by find_queries",
+                 103: "after all stages and reduce the walk finds nothing",
+                 104: "resolve_tx without a reported argument answers MissingTxArg naming the first missing key",
+                 201: "all full schedules that end Ok give the same canonical TIR",
+                 202: "reduce(reduce x) = reduce x on every intermediate"},
+)
+
+PROPS["C07"] = dict(
+    level="proof",
+    runner="C07",
+    model_files=["Base.v", "Assets.v", "Select.v", "Tir.v", "Reduce.v", "Walk.v"],
+    proof_files=["Assets_proofs.v", "Tir_proofs.v", "Reduce_proofs.v"],
+    check_files=["C06_check.v"],
+    theorems=["C07_args_fees_commute", "C07_args_inputs_commute", "C07_fees_inputs_commute", "C07_tx_stages_commute"],
+    partial=["idempotence of reduce and independence from the position of the compiler-op and reduce stages are checked on every schedule explored (clauses 201, 202) and by model/implementation agreement on each schedule, not yet theorems",
+             "into_datum on a multi-UTxO set depends on hash-set order (pick oracle); generated sets carry one datum"],
+    trusted_base=TIR_TB,
+    assumptions=["schedules in which a compiler op's operand is not yet available end in a coercion error in model and implementation alike and are not compared"],
+    check_names={201: "all full schedules that end Ok give the same canonical TIR",
+                 202: "reduce(reduce x) = reduce x on every intermediate"},
+)
